@@ -8,7 +8,7 @@ import filter_functions as ff
 from filter_functions import numeric, util
 
 from .. import gens
-from ..common import driver
+from ..common import corr_script, driver
 
 THEOREMS = '''parse_hamiltonian_valid_never_rejected parse_hamiltonian_rejects_iff
 parse_hamiltonian_rejected_invalid parse_args_rejected_invalid
@@ -25,7 +25,8 @@ concat_valid_never_rejected concat_error_class concat_single_unchecked concat_pe
 remap_rejects_iff extend_valid_never_rejected extend_rejects_iff extend_rejection_explained
 extend_error_class extend_shortcut_unchecked pc_availability pc_rejects_iff
 pc_availability_agrees_with_cache pc_infidelity_identity_component deriv_shape_rejects_iff
-cumulant_rejects_iff convergence_rejects_iff'''.split()
+cumulant_rejects_iff convergence_rejects_iff
+remap_shape_rejects_iff remap_shape_ok_iff remap_valid_never_rejected remap_rejects_iff_invalid remap_duplicate_mapped_ids_rejected remap_missing_key_rejected remap_error_class extend_class_of_corruption extend_duplicate_mapped_ids_rejected extend_missing_key_rejected extend_own_duplicates_rejected extend_inner_remap_consistent'''.split()
 LEAN_MODULES = ['FFVerif.Props.C20']
 PINS = ['pinParseArgs', 'pinParseHamiltonian', 'pinParseOperators', 'pinParseSpectrum', 'pinGetIndices', 'pinHashArray', 'pinAllArrayEqual', 'pinConcatenateHamiltonian']
 GEN_SITES = ['options']
@@ -270,15 +271,15 @@ def gen_extend(rng, n):
             if rng.random() < 0.15:
                 suffix = rng.choice(['_a', '_b'])
                 mp = {k_: k_ + suffix for k_ in list(p.c_oper_identifiers) + list(p.n_oper_identifiers)}
-                mpt = ','.join(nn + suffix for nn in p.n_oper_identifiers)
+                mpt = ','.join(f'{k_}>{v_}' for k_, v_ in mp.items())     # the whole dict (4-part token)
             mapping.append((p, q) if mp is None else (p, q, mp))
             pauli = p.basis.btype == 'Pauli'
             ko = p.is_cached('total_phases') or p.is_cached('filter_function') or (
                 p.is_cached('control_matrix') and pauli)
-            toks.append('%d,%d,%s,%s,%d,%d,%d,%d,%s,%s,%d,%d/%s/%s' % (
+            toks.append('%d,%d,%s,%s,%d,%d,%d,%d,%s,%s,%d,%d/%s/%s/%s' % (
                 d, logN, '+'.join(map(str, qs)) or '_', form, dt[1], dt[2], len(dt[0]),
                 int(cm and om is not None), om[1] if om else '-', om[2] if om else '-', int(ko),
-                int(pauli), ','.join(p.n_oper_identifiers), mpt))
+                int(pauli), ','.join(p.c_oper_identifiers), ','.join(p.n_oper_identifiers), mpt))
         N = None if rng.random() < 0.6 else rng.choice([1, 2, 3, 4])
         add, addt = None, '-'
         allq = [q for m in mapping for q in ([m[1]] if isinstance(m[1], int) else list(m[1]))]
@@ -653,6 +654,8 @@ def compare(ctx, cases):
 
 def correspondence(ctx):
     warnings.simplefilter('ignore')
+    # extend / remap WITH identifier mappings (injective, colliding, incomplete) vs the Validate model
+    corr_script(ctx, 'corr_c20val', [])
     rng = random.Random(int(ctx.rng('corr').integers(0, 2**31)))
     nprng = ctx.rng('corr-np')
     k = 1 if ctx.tier == 'quick' else 8
